@@ -14,6 +14,11 @@ _LEVEL = ('Static necessary-condition checking: each rule is exact on its struct
           'claimed are those whose truth is visible in the shape of the code.')
 
 RULEDOC = {
+ 'SA-PARSE.header_fits': 'a while loop over records with a fixed header of H bytes runs whenever H bytes are left (not H + 1) and reads no header byte beyond what its test guarantees',
+ 'SA-DATE.signext': "sign extension of a two's complement field subtracts twice the sign bit (1 << bits for a test against 1 << (bits - 1))",
+ 'SA-SEEK.advance': 'in the reading methods of the file object the amount added to the position is provably >= 0 under the conditions that hold there (a read past the end leaves the position alone)',
+ 'SA-FRESH.derived_pair': 'of two values returned together, one computed arithmetically from the other is computed from the final value of the other (no reassignment in between)',
+ 'SA-DEFAULT.attr': 'after `v = self.A; if v is None: v = default` the function uses v, not self.A (which is still None when the default applies)',
  'SA-COORD.ce_tracked': 'the parser registers every Rock Ridge continuation area it reads with the allocator; the guard in front of the registration fails only for the dot record of the root (truth table over the atoms of the guard)',
  'SA-COORD.rr_moved_holder': 'the record remembered as relocation directory when an image is parsed is the directory that holds relocated entries, never the entry whose RE mark was tested',
  'SA-COORD.last_mark': 'where a function appends to a list and re-marks an existing element as no longer last, the element re-marked is L[-1]',
